@@ -25,7 +25,7 @@ theorem n_removeAll_frame {r : Except Err Ret} (h : NRoots bk hk dd) (hg : NGood
       (fun _ => (os_removeAll_frame h.r2 hg.os2 hk' hne ((fwd2_removeAll h hk').eq hi)).1.bdir) f
     exact ⟨a, b, fun j hj => c j (fun e => hj ((List.prefix_append_right_inj _).mp e))⟩
   | base =>
-    rw [base_removeAll (dd := dd)] at he
+    rw [base_removeAll (dd := dd), rmName_kp hk'] at he
     obtain ⟨h1, _⟩ := Prod.mk.inj he
     have hsafe := hiddenRemoveAll_safe (R h) (nhidKeys h) hk' hne hg.os 64
     change (hiddenRemoveAll (nhs hk) (inner bk dd) 64 m (kp k)).1 = m' at h1
@@ -68,7 +68,7 @@ theorem n_removeAll_ok (h : NRoots bk hk dd) (hg : NGood bk hk dd m) (hk' : PKey
     have hgone := hiddenRemoveAll_complete (R h) (RD h) (nhidKeys h) hk' hne hg.os 64 hok k List.prefix_rfl hnh
       (fun hpd => hp (parK_iff.mp hpd.1))
     refine ⟨(hiddenRemoveAll (nhs hk) (inner bk dd) 64 m (kp k)).1, ?_, ?_⟩
-    · rw [base_removeAll (dd := dd)]
+    · rw [base_removeAll (dd := dd), rmName_kp hk']
       show ((hiddenRemoveAll (nhs hk) (inner bk dd) 64 m (kp k)).1,
         (hiddenRemoveAll (nhs hk) (inner bk dd) 64 m (kp k)).2.map (fun _ => Ret.unit)) = _
       rw [hok]
